@@ -487,6 +487,11 @@ func VerifC05_EPanic() {
 		"(probe 'a) (apply 'relay:spin '(1)) (probe 'z)",
 		"(probe 'a) (funcall 'relay:hop3) (probe 'z)",
 		"(probe 'a) (ignore-errors (funcall 'relay:hop)) (funcall 'relay:viaother) (probe 'z)",
+		// the panic raised by a HOST MACRO and by a HOST OPERATOR, at top level and inside a function
+		"(probe 'a) (boom-macro) (probe 'b) (boom-macro) (probe 'z)",
+		"(defun f (n) (probe n) (boom-macro)) (probe 'a) (f 1) (f 2) (probe 'z)",
+		"(defun f (n) (probe n) (boom-op)) (probe 'a) (f 1) (boom-op) (probe 'z)",
+		"(defun f (n) (if (= n 0) (boom-macro) (f (- n 1)))) (probe 'a) (ignore-errors (f 2)) (f 1) (probe 'z)",
 	}
 	const prelude = "(in-package 'other) (export 'thru) (defun thru () (funcall 'user:boom)) " +
 		"(in-package 'relay) (export 'hop 'spin 'hop3 'viaother) (defun hop () (probe 'hop) (funcall 'user:boom)) " +
@@ -542,6 +547,8 @@ func VerifC05_EPanic() {
 		vAssert(len(ps.effects) < len(ps0.effects) || len(ps0.effects) == 0, "forms after the panic are not evaluated")
 		vCover("panic")
 	}
+	r3 := env.LoadString("again-f", "(defun again-fn (n) (if (= n 0) 'fin (again-fn (- n 1)))) (again-fn 2)")
+	vAssert(r3.Type == lisp.LSymbol && r3.Str == "fin", "a later top-level call is an ordinary call: "+outcome(r3))
 	r2 := evalSrc(env, "(probe 'again) (set 'later-binding 5)")
 	vAssert(r2.Type != lisp.LError, "the runtime is usable after a recovered panic: "+outcome(r2))
 	r2 = env.LoadString("again", "user:later-binding")
